@@ -262,13 +262,13 @@ impl<'a> Sum<&'a Self> for Fr {
 
 impl Product<Self> for Fr {
     fn product<I: Iterator<Item = Self>>(iter: I) -> Self {
-        iter.fold(Self::ZERO, Mul::mul)
+        iter.fold(Self::ONE, Mul::mul)
     }
 }
 
 impl<'a> Product<&'a Self> for Fr {
     fn product<I: Iterator<Item = &'a Self>>(iter: I) -> Self {
-        iter.fold(Self::ZERO, Mul::mul)
+        iter.fold(Self::ONE, Mul::mul)
     }
 }
 
